@@ -219,6 +219,9 @@ func candidates(sc *Scenario, last *Result) []*Scenario {
 					add(func(c *Scenario) bool { c.Groups[gi][ji].Fault.Budget = b; return true })
 				}
 			}
+			if j.Pre > 0 {
+				add(func(c *Scenario) bool { c.Groups[gi][ji].Pre = 0; return true })
+			}
 			if len(j.CloseAt) > 0 {
 				add(func(c *Scenario) bool { c.Groups[gi][ji].CloseAt = nil; return true })
 			}
